@@ -2,6 +2,7 @@ package rules
 
 import (
 	"fmt"
+	"go/constant"
 	"go/token"
 	"go/types"
 	"sort"
@@ -459,7 +460,217 @@ func runEOFStrict(r *core.Run) {
 			}
 		}
 	}
+	if seen == 0 {
+		seen = eofStrictUnits(r)
+	}
 	r.Floor("in-memory Bytes implementations", seen, 1)
+}
+
+// linThroughChain: a Lin of the innermost frame of chain expressed in the outermost frame.
+func linThroughChain(l Lin, chain []*ssa.Call) (Lin, bool) {
+	for i := len(chain) - 1; i >= 0; i-- {
+		g := chain[i].Call.StaticCallee()
+		var ok bool
+		l, ok = substParams(l, g, chain[i].Call.Args)
+		if !ok {
+			return l, false
+		}
+	}
+	return l, true
+}
+
+func factsThroughChain(fs []Fact, chain []*ssa.Call) []Fact {
+	var out []Fact
+	for _, f := range fs {
+		if l, ok := linThroughChain(f.L, chain); ok {
+			out = append(out, Fact{L: l, NE: f.NE})
+		}
+	}
+	return strengthen(out)
+}
+
+// tupleLeaves: the affine values v (a value of the frame `chain` ends in, used in block at) can take, in the outermost
+// frame: φ-nodes are expanded, and a result of a tuple-returning unit helper is expanded into the corresponding results
+// of its returns — leaving out the returns that disagree with the boolean results of the same call known at `at`.
+func tupleLeaves(v ssa.Value, at *ssa.BasicBlock, chain []*ssa.Call, depth int) ([]Lin, bool) {
+	if depth > 4 {
+		return nil, false
+	}
+	v, n := valueThrough(stripConv(v), chain)
+	chain = chain[:n]
+	v = stripConv(v)
+	switch x := v.(type) {
+	case *ssa.Phi:
+		var out []Lin
+		for _, e := range x.Edges {
+			ls, ok := tupleLeaves(e, nil, chain, depth+1)
+			if !ok {
+				return nil, false
+			}
+			out = append(out, ls...)
+		}
+		return out, true
+	case *ssa.BinOp:
+		if x.Op == token.ADD || x.Op == token.SUB {
+			as, ok1 := tupleLeaves(x.X, at, chain, depth+1)
+			bs, ok2 := tupleLeaves(x.Y, at, chain, depth+1)
+			if ok1 && ok2 && len(as)*len(bs) <= 8 {
+				sign := int64(1)
+				if x.Op == token.SUB {
+					sign = -1
+				}
+				var out []Lin
+				for _, a := range as {
+					for _, b := range bs {
+						out = append(out, a.add(b, sign))
+					}
+				}
+				return out, true
+			}
+		}
+	case *ssa.Extract:
+		c, ok := x.Tuple.(*ssa.Call)
+		if !ok {
+			break
+		}
+		h := c.Call.StaticCallee()
+		if h == nil || len(h.Blocks) == 0 || c.Call.IsInvoke() {
+			break
+		}
+		known := map[int]bool{}
+		if at != nil {
+			for kv, truth := range boolKnown(at, nil) {
+				if ex, isEx := kv.(*ssa.Extract); isEx && ex.Tuple == ssa.Value(c) {
+					known[ex.Index] = truth
+				}
+			}
+		}
+		var out []Lin
+		for _, b := range h.Blocks {
+			ret, isRet := lastInstr(b).(*ssa.Return)
+			if !isRet || x.Index >= len(ret.Results) {
+				continue
+			}
+			skip := false
+			for i, truth := range known {
+				if k, isK := ret.Results[i].(*ssa.Const); isK && k.Value != nil && k.Value.Kind() == constant.Bool && constant.BoolVal(k.Value) != truth {
+					skip = true
+				}
+			}
+			if skip {
+				continue
+			}
+			ls, ok := tupleLeaves(ret.Results[x.Index], nil, append(append([]*ssa.Call{}, chain...), c), depth+1)
+			if !ok {
+				return nil, false
+			}
+			out = append(out, ls...)
+		}
+		return out, len(out) > 0
+	}
+	l, ok := linThroughChain(linOf(v), chain)
+	return []Lin{l}, ok
+}
+
+// eofStrictUnits: R-EOFSTRICT for in-memory Bytes methods whose range check, slicing and io.EOF are spread over
+// unexported helpers (clampRange / viewOrCopy): every site is judged in the method's own terms.
+func eofStrictUnits(r *core.Run) int {
+	seen := 0
+	for _, fn := range methodsNamed(r, "", "Bytes") {
+		sig := fn.Signature
+		if sig.Results().Len() != 2 || !isSliceLike(sig.Results().At(0).Type()) || len(fn.Blocks) == 0 {
+			continue
+		}
+		var ints []*ssa.Parameter
+		for _, p := range fn.Params {
+			if b, ok := p.Type().Underlying().(*types.Basic); ok && b.Kind() == types.Int64 {
+				ints = append(ints, p)
+			}
+		}
+		if len(ints) < 2 {
+			continue
+		}
+		unit := methodUnitOpt(fn, true)
+		// in-memory: no interface method is invoked anywhere in the unit
+		invokes := false
+		var slices []unitSite
+		for _, u := range unit {
+			if c, ok := u.in.(ssa.CallInstruction); ok && c.Common().IsInvoke() {
+				invokes = true
+			}
+			if sl, ok := u.in.(*ssa.Slice); ok && sl.Max != nil {
+				root, _ := valueThrough(sl.X, u.chain)
+				if strings.HasPrefix(canon(root), fn.Params[0].Name()+".") {
+					slices = append(slices, u)
+				}
+			}
+		}
+		if invokes || len(slices) != 1 {
+			continue
+		}
+		sl := slices[0].in.(*ssa.Slice)
+		root, _ := valueThrough(sl.X, slices[0].chain)
+		name := fnLabel(fn)
+		n, off := ints[len(ints)-2].Name(), ints[len(ints)-1].Name()
+		dataLen := "len(" + canon(root) + ")"
+		goal := linAtom(n).add(linAtom(dataLen), -1).add(linAtom(off), 1).add(linConst(1), -1)
+		eofSites := 0
+		check := func(fs []Fact, pos token.Pos, what string) {
+			eofSites++
+			r.Check(entails(fs, goal), fmt.Sprintf("%s.Bytes io.EOF %s", name, what), pos, "guards imply remaining < n",
+				fmt.Sprintf("io.EOF is produced under guards %v which do not imply `%s - %s < %s` (fewer than n bytes remain): a read that fits exactly, or reads nothing, reports EOF", factStrings(fs), dataLen, off, n))
+		}
+		for _, u := range unit {
+			switch x := u.in.(type) {
+			case *ssa.Return:
+				for _, rv := range x.Results {
+					if isEOFValue(rv) {
+						check(factsThroughChain(blockFacts(x.Block()), u.chain), x.Pos(), fmt.Sprintf("return in %s", x.Parent().Name()))
+					}
+				}
+			case *ssa.Phi:
+				for i, e := range x.Edges {
+					if isEOFValue(e) {
+						check(factsThroughChain(edgeFacts(x.Block().Preds[i], x.Block()), u.chain), x.Pos(), fmt.Sprintf("clamp in %s via block %d", x.Parent().Name(), x.Block().Preds[i].Index))
+					}
+				}
+			}
+		}
+		if eofSites == 0 {
+			continue
+		}
+		seen++
+		r.Check(eofSites >= 2, name+".Bytes EOF sites", fn.Pos(), "", "expected both the beyond-end and the clamping io.EOF sites")
+		if sl.Low == nil || sl.High == nil {
+			r.Fail(name+".Bytes slice bounds", sl.Pos(), "result is not a full slice expression data[off:off+n:off+n]: append on the result could write into the backing data")
+			continue
+		}
+		lo, okLo := tupleLeaves(sl.Low, sl.Block(), slices[0].chain, 0)
+		sameHM := stripConv(sl.High) == stripConv(sl.Max) || linOf(sl.High).equal(linOf(sl.Max))
+		// known flags at the call sites of the chain apply to the arguments passed there
+		var at *ssa.BasicBlock
+		if len(slices[0].chain) > 0 {
+			at = slices[0].chain[len(slices[0].chain)-1].Block()
+		}
+		leaves, okHi := tupleLeaves(sl.High, at, slices[0].chain, 0)
+		good := okHi && len(leaves) > 0
+		full := false
+		var ls []string
+		for _, l := range leaves {
+			ls = append(ls, l.String())
+			d := l.add(linAtom(off), -1)
+			switch {
+			case d.equal(linAtom(n)):
+				full = true
+			case d.equal(linAtom(dataLen).add(linAtom(off), -1)):
+			default:
+				good = false
+			}
+		}
+		r.Check(okLo && len(lo) == 1 && lo[0].equal(linAtom(off)) && sameHM && good && full, name+".Bytes slice bounds", sl.Pos(), fmt.Sprintf("[off : %v : same]", ls),
+			fmt.Sprintf("slice bounds are [%v : %v : max equal to high: %v], want [off : off+n : off+n] (with the end clamped to len(data) when fewer than n bytes remain)", lo, ls, sameHM))
+	}
+	return seen
 }
 
 // linLeaves: the affine values v can take, expanding phis (also inside one level of + / -).
@@ -912,7 +1123,10 @@ type unitSite struct {
 }
 
 // methodUnit: fn and the methods of the same receiver type it calls (transitively, depth <= 3), flattened.
-func methodUnit(fn *ssa.Function) []unitSite {
+func methodUnit(fn *ssa.Function) []unitSite { return methodUnitOpt(fn, false) }
+
+// methodUnitOpt: with plain, unexported package-level helpers of the same package are part of the unit too.
+func methodUnitOpt(fn *ssa.Function, plain bool) []unitSite {
 	var out []unitSite
 	var walk func(f *ssa.Function, chain []*ssa.Call, depth int)
 	walk = func(f *ssa.Function, chain []*ssa.Call, depth int) {
@@ -921,7 +1135,9 @@ func methodUnit(fn *ssa.Function) []unitSite {
 				out = append(out, unitSite{in, chain})
 				if c, ok := in.(*ssa.Call); ok && depth < 3 {
 					g := c.Call.StaticCallee()
-					if g != nil && !c.Call.IsInvoke() && len(g.Blocks) > 0 && g.Signature.Recv() != nil && recvName(g) == recvName(fn) && len(c.Call.Args) > 0 && c.Call.Args[0] == ssa.Value(f.Params[0]) {
+					sameRecv := g != nil && g.Signature.Recv() != nil && fn.Signature.Recv() != nil && recvName(g) == recvName(fn) && len(c.Call.Args) > 0 && len(f.Params) > 0 && c.Call.Args[0] == ssa.Value(f.Params[0])
+					plainHelper := plain && g != nil && g.Signature.Recv() == nil && fnPkg(g) == fnPkg(fn) && g.Object() != nil && !g.Object().Exported()
+					if g != nil && !c.Call.IsInvoke() && len(g.Blocks) > 0 && (sameRecv || plainHelper) {
 						walk(g, append(append([]*ssa.Call{}, chain...), c), depth+1)
 					}
 				}
